@@ -178,9 +178,16 @@ pub fn lines_of(input: &[u8]) -> Vec<&[u8]> {
 
 /// One printed line, parsed: plain bytes and a red flag per byte.
 fn strip_sgr(raw: &[u8]) -> Result<(Vec<u8>, Vec<bool>), String> {
+    let mut on = false;
+    strip_sgr_from(raw, &mut on)
+}
+
+/// As `strip_sgr`, with the terminal's styling state carried in and out: a style that is still on at
+/// the end of one printed line colours the bytes of the next one.
+fn strip_sgr_from(raw: &[u8], state: &mut bool) -> Result<(Vec<u8>, Vec<bool>), String> {
     let mut plain = Vec::new();
     let mut red = Vec::new();
-    let mut on = false;
+    let mut on = *state;
     let mut i = 0;
     while i < raw.len() {
         if raw[i] == 0x1b {
@@ -210,6 +217,7 @@ fn strip_sgr(raw: &[u8]) -> Result<(Vec<u8>, Vec<bool>), String> {
             i += 1;
         }
     }
+    *state = on;
     Ok((plain, red))
 }
 
@@ -285,8 +293,9 @@ pub fn reference_check(inv: &Invocation, r: &RunResult, drop_cr: bool) -> Result
         return Err(format!("{} lines printed, {} lines contain a pattern", outl.len(), expected.len()));
     }
     let mut base: Option<i64> = None;
+    let mut style_on = false;
     for (raw, (prefix, idx, text, mask)) in outl.iter().zip(expected.iter()) {
-        let (plain, red) = strip_sgr(raw)?;
+        let (plain, red) = strip_sgr_from(raw, &mut style_on)?;
         let mut pos = 0usize;
         if !plain.starts_with(prefix) {
             return Err(format!("printed line {:?} lacks the prefix {:?}", String::from_utf8_lossy(&plain), String::from_utf8_lossy(prefix)));
